@@ -11,8 +11,8 @@ TABLES = os.path.join(os.path.dirname(os.path.dirname(os.path.abspath(__file__))
 PROCESS_TRAIT = "processor::Process"
 GET_TRAIT = "selection::Get"
 BOX_PROCESS = "std::boxed::Box<dyn processor::Process>"
-# set by ./check: the thorough tier widens the bounded explorations (container grammar 0..6 elements, row grammar
-# 1..6 fields, limiter machine 8 x 9 x 18)
+# set by ./check: the thorough tier widens the bounded explorations (container grammar 0..12 elements, row grammar
+# 1..12 fields, limiter machine 13 x 14 x 40)
 TIER = "quick"
 
 LOOK = ("Try>::branch", "Try::branch", "Clone>::clone", "Deref>::deref", "DerefMut>::deref_mut",
